@@ -227,3 +227,79 @@ def describe(w):
             for fd in w["functions"]
         ],
     }
+
+
+# ------------------------------------------------------------------ plain DAGs (no MapSpec)
+def gen_dag(tape, *, min_funcs=2, max_funcs=5, allow_tuple=True, allow_defaults=True):
+    """Random DAG of functions without MapSpec for pipeline(...)/run histories."""
+    values: list = []  # names usable as parameters (root scalars and outputs)
+    roots: list = []
+    inputs: dict = {}
+    funcs: list = []
+    nf = min_funcs + tape.choose(max_funcs - min_funcs + 1, "nfuncs")
+    cb = 0
+    for k in range(nf):
+        nparams = 1 + tape.choose(3, "nparams")
+        params: list = []
+        for _ in range(nparams):
+            if values and tape.coin(0.65, "reuse"):
+                p = tape.pick(values, "pvalue")
+            else:
+                p = f"s{len(roots)}"
+                roots.append(p)
+                values.append(p)
+                inputs[p] = {"axes": [], "kind": "scalar", "base": 0}
+            if p not in params:
+                params.append(p)
+        fd = {"name": f"f{k}", "params": list(params), "mapspec": None, "out_shape": None,
+              "defaults": {}, "bound": {}, "sig_defaults": {}}
+        n_out = 2 if allow_tuple and tape.coin(0.2, "tuple-out") else 1
+        fd["outputs"] = [f"o{k}"] if n_out == 1 else [f"o{k}a", f"o{k}b"]
+        if allow_defaults and tape.coin(0.15, "bound"):
+            b = f"b{cb}"
+            cb += 1
+            fd["params"].append(b)
+            fd["bound"][b] = f"{b}-bound"
+        if allow_defaults and tape.coin(0.2, "default"):
+            d = f"d{cb}"
+            cb += 1
+            fd["params"].append(d)
+            where = tape.pick(["sig", "pipefunc"], "default-where")
+            (fd["sig_defaults"] if where == "sig" else fd["defaults"])[d] = f"{d}-default"
+            inputs[d] = {"axes": [], "kind": "default", "base": 0, "provided": bool(tape.coin(0.4, "default-provided"))}
+        funcs.append(fd)
+        values.extend(fd["outputs"])
+    return {"indices": {}, "inputs": inputs, "functions": funcs, "internal_via": "pipefunc"}
+
+
+def upstream(w, output):
+    """Names of the functions needed to compute `output`."""
+    prod = {o: fd for fd in w["functions"] for o in fd["outputs"]}
+    need, stack = [], [output]
+    seen = set()
+    while stack:
+        o = stack.pop()
+        fd = prod.get(o)
+        if fd is None or fd["name"] in seen:
+            continue
+        seen.add(fd["name"])
+        need.append(fd["name"])
+        stack.extend(p for p in fd["params"] if p not in fd.get("bound", {}))
+    return need
+
+
+def root_kwargs(w, output):
+    """Root keyword arguments needed to call pipeline(output, **kwargs)."""
+    prod = {o for fd in w["functions"] for o in fd["outputs"]}
+    need = upstream(w, output)
+    kw = {}
+    allin = build_inputs(w)
+    for fd in w["functions"]:
+        if fd["name"] not in need:
+            continue
+        for p in fd["params"]:
+            if p in prod or p in fd.get("bound", {}):
+                continue
+            if p in allin:
+                kw[p] = allin[p]
+    return kw
